@@ -196,7 +196,7 @@ class MPRNLRI(Attribute, Family):
         # - With LLNH negotiated, 16-byte link-local (fe80::/10) is explicitly allowed
         # - Semantic interpretation of 16-byte NH depends on LLNH negotiation
         if negotiated.nexthop:
-            if len_nh in (16, 32, 24):
+            if len_nh in (16, 32, 24, 48):
                 nh_afi = AFI.ipv6
             elif len_nh in (4, 12):
                 nh_afi = AFI.ipv4
@@ -204,7 +204,10 @@ class MPRNLRI(Attribute, Family):
                 raise Notify(
                     3, 0, 'unsupported family {} {} with extended next-hop capability enabled'.format(afi, safi)
                 )
-            length, _ = Family.size[(nh_afi, safi)]
+            # the capability widens what a family may carry as next hop; a family that has no
+            # entry under the next hop's AFI (rtc, evpn, bgp-ls ...) keeps its own lengths
+            if (nh_afi, safi) in Family.size:
+                length, _ = Family.size[(nh_afi, safi)]
 
         if len_nh not in length:
             raise Notify(
